@@ -43,7 +43,7 @@ type parser struct {
 	nparams int
 }
 
-func (p *parser) cur() *token  { return &p.toks[p.i] }
+func (p *parser) cur() *token { return &p.toks[p.i] }
 func (p *parser) peek(n int) *token {
 	if p.i+n >= len(p.toks) {
 		return &p.toks[len(p.toks)-1]
